@@ -67,7 +67,9 @@ EagerCache(be, s) ==
             ELSE [raw_host |-> SOME(IF Has(eh.ok, LBR) THEN SubSeq(eh.ok, 2, Len(eh.ok) - 1) ELSE eh.ok),     \* '' for an empty host
                   explicit_port |-> p.port,
                   raw_user |-> IF IsNone(p.user) /\ IsNone(p.password) THEN NONE
-                               ELSE IF ~IsNone(p.user) /\ Get(p.user) # <<>> THEN SOME(Q(be, REQUOTER, Get(p.user))) ELSE p.user,
+                               \* (REQUOTER(username) or None: a user that quoting empties -- a lone surrogate -- is None, fix d62e432)
+                               ELSE IF ~IsNone(p.user) /\ Get(p.user) # <<>>
+                                    THEN (LET q == Q(be, REQUOTER, Get(p.user)) IN IF q = <<>> THEN NONE ELSE SOME(q)) ELSE p.user,
                   raw_password |-> IF ~IsNone(p.password) /\ Get(p.password) # <<>> THEN SOME(Q(be, REQUOTER, Get(p.password))) ELSE p.password]
 PreEncodedUrl(s) == SplitUrl(s)
 Ctor(be, s, encoded) == IF encoded THEN PreEncodedUrl(s) ELSE EncodeUrl(be, s)
